@@ -540,7 +540,7 @@ class Runner:
         self.stats["labels_checked"] += 1
         got = out.voice_burst.name
         if got != LABELS[pos]:
-            raise Fail("voice_bursts_labelled_A_to_F_cyclically_from_voice_sync", got, LABELS[pos], klass=("after_" + LABELS[pos - 1][-1]) if pos else "sync")
+            raise Fail("voice_bursts_labelled_A_to_F_cyclically_from_voice_sync", got, LABELS[pos], klass="sync" if op["k"] == "vsync" else "after_" + LABELS[pos - 1][-1])
 
     # -- bookkeeping for the tally -------------------------------------------------------------------
     def nontrivial(self):
